@@ -700,8 +700,9 @@ def run(ctx):
             nontriv[kind] = nontriv.get(kind, 0) + 1
         if bad:
             problems.append((kind, c, s, out, bad))
-        # quick tier: every targeted / witness job is replayed through the model, every other random-program job
-        if len(s.encode("utf-8")) < 2500 and (not quick or kind.startswith(("targeted", "witness")) or i % 2 == 0):
+        # quick tier: every targeted / witness job is replayed through the model, every fourth random-program job
+        if len(s.encode("utf-8")) < (1800 if quick else 2500) and (
+                not quick or kind.startswith(("targeted", "witness")) or i % 4 == 0):
             cases.append((i, coq_case(s, out, r["trace"])))
 
     # model = code on the recorded requests, lines_fit and placements evaluated in Coq
@@ -941,7 +942,7 @@ def classify_problem(c, s, out):
     if "remove_compound_assignment" in names and compound_index_key_hoisted(s, "remove_spaces" in names[:1]):
         return KEY_COMPOUND_KEY
     culprit = culprit_rule(c, s)
-    if culprit in KNOWN_CULPRITS:
+    if culprit in KNOWN_CULPRITS and KNOWN_CULPRITS[culprit](s):
         return "line-shift:" + culprit
     if "remove_method_definition" in names and method_with_multiline_parameters(s) and not (
             "remove_spaces" in names and names.index("remove_spaces") < names.index("remove_method_definition")):
@@ -950,7 +951,70 @@ def classify_problem(c, s, out):
 
 
 # rules for which a line-shifting defect is recorded in known_findings.txt (key line-shift:<rule>)
-KNOWN_CULPRITS = {"remove_method_call", "remove_empty_do", "remove_unused_variable"}
+def _lexed(src):
+    data = src.encode("utf-8")
+    try:
+        toks, comments = L.lex(data)
+    except L.LexError:
+        return data, [], []
+    return data, toks, [c for c in comments if c.kind == "comment"]
+
+
+def _comment_touching(data, comments, a, b):
+    """a comment inside [a, b), or directly in front of a / behind b with only blanks in between"""
+    for c in comments:
+        if a <= c.start < b:
+            return True
+        if c.end <= a and not data[c.end:a].strip():
+            return True
+        if c.start >= b and not data[b:c.start].strip(b" \t"):
+            return True
+    return False
+
+
+def receiver_with_comment(src):
+    """recorded remove_method_call defect: the receiver NAME of a method call carries a comment (before it, or
+    between it and the `:`), which is cloned with it"""
+    data, toks, comments = _lexed(src)
+    for j in range(1, len(toks)):
+        if toks[j].text == b":" and toks[j - 1].kind == "name" and (j < 2 or toks[j - 2].text not in (b".", b":")):
+            r = toks[j - 1]
+            if any(r.end <= c.start < toks[j].start for c in comments):
+                return True
+            if any(c.end <= r.start and not data[c.end:r.start].strip() and (j < 2 or c.start >= toks[j - 2].end) for c in comments):
+                return True
+    return False
+
+
+def empty_do_with_comment(src):
+    """recorded remove_empty_do defect: an empty `do end` with a comment on its `do` / `end` tokens"""
+    data, toks, comments = _lexed(src)
+    for j in range(len(toks) - 1):
+        if toks[j].text == b"do" and toks[j + 1].text == b"end" and (j == 0 or toks[j - 1].text not in (b"while", b"for")):
+            # `while x do end` / `for .. do end` are not do statements: the `do` then follows an expression; only a
+            # bare `do` (after a statement boundary) is; accept any, the culprit rule decides
+            if _comment_touching(data, comments, toks[j].start, toks[j + 1].end):
+                return True
+    return False
+
+
+def local_with_several_names_over_lines(src):
+    """recorded remove_unused_variable defect: a `local` with two or more names (an unused one is moved behind the
+    used ones) whose names / values span lines"""
+    data, toks, comments = _lexed(src)
+    for j, t in enumerate(toks):
+        if t.text == b"local" and j + 2 < len(toks) and toks[j + 1].kind == "name" and toks[j + 2].text == b",":
+            k = j + 1
+            while k + 1 < len(toks) and toks[k + 1].text == b"," and k + 2 < len(toks):
+                k += 2
+            if toks[k].line > t.line or (k + 2 < len(toks) and toks[k + 1].text == b"=" and toks[k + 2].line > t.line):
+                return True
+    return False
+
+
+# rules with a recorded line-shifting defect (key line-shift:<rule>) and the input-side condition of that defect
+KNOWN_CULPRITS = {"remove_method_call": receiver_with_comment, "remove_empty_do": empty_do_with_comment,
+                  "remove_unused_variable": local_with_several_names_over_lines}
 
 
 def culprit_rule(c, s):
